@@ -5,7 +5,7 @@
    request" = given_just / want_just, invariants) is in Sys/TopicAcl.v.  Part B is about the
    other topic kinds (Sys/TopicKinds.v): p2p, me, fnd, sys. *)
 From Coq Require Import ZArith NArith List Bool.
-From Tinode Require Import Base.Util Pure.Acs Pure.Uid Pure.P2PName Pure.P2PProofs Sys.Topic Sys.TopicAcl Sys.TopicAclProofs
+From Tinode Require Import Base.Util Pure.Acs Pure.Uid Pure.P2PName Pure.P2PProofs Sys.Topic Sys.TopicTac Sys.TopicMarks Sys.TopicAcl Sys.TopicAclProofs
   Sys.TopicAclInv Sys.TopicAclJoin Sys.TopicAclOwn Sys.TopicAclThm Sys.TopicAclWitness Sys.TopicKinds Sys.TopicKindsProofs.
 Import ListNotations.
 Open Scope Z_scope.
@@ -91,6 +91,118 @@ Definition c07_given_writers_statement : Prop :=
 Theorem c07_given_writers_refuted : ~ c07_given_writers_statement.
 Proof. intros H. exact (w2_rewrites_all (H w2_sm w2_x _ w2_inv w2_logged)). Qed.
 
+(* ================================================================== *)
+(* Part B: p2p, me, fnd, sys (Sys/TopicKinds.v)                         *)
+Section C07Kinds.
+Variable isroot : N -> bool.   (* the level of a user's sessions: root or not *)
+Variable suser : N -> N.       (* the user a session is logged in as *)
+
+(* Routing (Session.expandTopicName): a request reaches the 'me' topic of u only as "me" from
+   u himself; the 'fnd' topic of u only as "fnd" from u or by its raw name; a p2p topic only by
+   its raw name or as usrX from one of its two users. *)
+Theorem c07_route_me : forall uid o u, expand uid o = inl (KMe u) -> o = OMe /\ u = uid.
+Proof. exact expand_me. Qed.
+Theorem c07_route_fnd : forall uid o u, expand uid o = inl (KFnd u) -> (o = OFnd /\ u = uid) \/ o = ORawFnd u.
+Proof. exact expand_fnd. Qed.
+Theorem c07_route_p2p : forall uid o a b, expand uid o = inl (KP2P a b) ->
+  o = ORawP2P a b \/ (exists v, o = OUsr v /\ v <> 0%N /\ v <> uid /\ ((a = uid /\ b = v) \/ (a = v /\ b = uid))).
+Proof. exact expand_p2p. Qed.
+(* the model keys a p2p topic by the pair of ids; the real name determines the pair *)
+Theorem c07_p2p_name_pair : forall a b c d,
+  valid_uid a -> valid_uid b -> valid_uid c -> valid_uid d -> a <> b -> c <> d ->
+  p2p_name a b = p2p_name c d -> (a = c /\ b = d) \/ (a = d /\ b = c).
+Proof. exact P2PProofs.p2p_injective. Qed.
+
+(* Every history (any requests of sessions logged in as one user each): only sessions of u
+   are ever attached to the 'me' topic of u. *)
+Theorem c07_me_attach_private : forall acc h, Forall (op_user suser) h ->
+  forall u c sid v, kt_cache (tget (KMe u) (w_topics (fst (krun (init_world acc) h)))) = Some c ->
+    In (sid, v) (kc_sess c) -> v = u.
+Proof. exact (me_sessions_private suser). Qed.
+
+(* me / fnd: in every state reached by a history in which no {set sub} addressed to a me / fnd
+   topic names a user other than its owner (op_clean; the pattern of finding
+   me-fnd-foreign-subscription-by-invite), every stored subscription, cached entry and attached
+   session of the me / fnd topic of u belongs to u. *)
+Theorem c07_me_fnd_private : forall acc h,
+  Forall (op_static isroot suser sc_mefnd) h -> Forall (op_clean isroot sc_none sc_mefnd) h ->
+  forall k u, k = KMe u \/ k = KFnd u ->
+  let t := tget k (w_topics (fst (krun (init_world acc) h))) in
+  (forall v r, In (v, r) (kt_rows t) -> v = u) /\
+  (forall c, kt_cache t = Some c ->
+     (forall v r, In (v, r) (kc_users c) -> v = u) /\ (forall sid v, In (sid, v) (kc_sess c) -> v = u)).
+Proof. exact (mefnd_private isroot suser). Qed.
+
+(* sys: in every state reached by ANY history of sessions whose level is a function of the
+   user, every stored subscription, cached entry and attached session belongs to a root user. *)
+Theorem c07_sys_root_only : forall acc h,
+  Forall (op_static isroot suser sc_sys) h ->
+  let t := tget KSys (w_topics (fst (krun (init_world acc) h))) in
+  (forall v r, In (v, r) (kt_rows t) -> isroot v = true) /\
+  (forall c, kt_cache t = Some c ->
+     (forall v r, In (v, r) (kc_users c) -> isroot v = true) /\ (forall sid v, In (sid, v) (kc_sess c) -> isroot v = true)).
+Proof. exact (sys_root_only isroot suser). Qed.
+
+(* p2p: accounts whose default access is within JRWPA and contains A, histories in which a
+   {set sub user=X} addressed to a p2p topic names one of its two users and carries an explicit
+   mode (op_clean; the patterns of findings p2p-third-participant, p2p-initiator-grant-unmasked,
+   p2p-reinvite-grant-lacks-approve): every p2p topic has at most two subscriptions, of the two
+   users in its name, every want and grant (stored and cached) is within JRWPA and contains A,
+   and only the two users are attached. *)
+Theorem c07_p2p_shape : forall acc h,
+  NoDup (map fst acc) -> Forall (fun e => okmode (snd e)) acc ->
+  Forall (op_static isroot suser sc_p2p) h -> Forall (op_clean isroot sc_p2p sc_p2p) h ->
+  forall a b, let t := tget (KP2P a b) (w_topics (fst (krun (init_world acc) h))) in
+  (length (kt_rows t) <= 2)%nat /\
+  (forall v r, In (v, r) (kt_rows t) -> (v = a \/ v = b) /\ okmode (kr_want r) /\ okmode (kr_given r)) /\
+  (forall c, kt_cache t = Some c ->
+     (forall v r, In (v, r) (kc_users c) -> (v = a \/ v = b) /\ okmode (kr_want r) /\ okmode (kr_given r)) /\
+     (forall sid v, In (sid, v) (kc_sess c) -> v = a \/ v = b)).
+Proof. exact (p2p_shape isroot suser). Qed.
+End C07Kinds.
+
+(* The unconditional statements are REFUTED by the faithful model (each witness replayed on the
+   real code, findings/C07.md): a third user gets a subscription in a p2p topic; with the
+   default account access JRWPAS the initiator's grant is JRWPAS; a re-invited peer gets grant
+   J; a foreign user gets a subscription on somebody's 'me' topic and attaches to somebody's
+   'fnd' topic. *)
+Definition c07_p2p_participants_statement : Prop :=
+  forall acc h a b v r, In (v, r) (kt_rows (tget (KP2P a b) (w_topics (fst (krun (init_world acc) h))))) -> v = a \/ v = b.
+Theorem c07_p2p_participants_refuted : ~ c07_p2p_participants_statement.
+Proof.
+  intros H. destruct wk_third_row as [r E]. apply alookup_in in E.
+  destruct (H wk_acc wk_third _ _ _ _ E) as [X|X]; discriminate X.
+Qed.
+Definition c07_p2p_modes_statement : Prop :=
+  forall acc h a b v r, In (v, r) (kt_rows (tget (KP2P a b) (w_topics (fst (krun (init_world acc) h))))) ->
+    okmode (kr_want r) /\ okmode (kr_given r).
+Theorem c07_p2p_modes_refuted_unmasked : ~ c07_p2p_modes_statement.
+Proof.
+  intros H. pose proof wk_unmasked_row as E.
+  destruct (alookup 1%N (kt_rows (tget (KP2P 1 2) (w_topics (fst (krun (init_world wk_default_acc) wk_unmasked)))))) as [r|] eqn:EL; [|discriminate].
+  apply alookup_in in EL. destruct (H _ _ _ _ _ _ EL) as [_ [G _]]. cbn in E. inv E. rewrite H1 in G. discriminate G.
+Qed.
+Theorem c07_p2p_modes_refuted_reinvite : ~ c07_p2p_modes_statement.
+Proof.
+  intros H. pose proof wk_reinvite_row as E.
+  destruct (alookup 2%N (kt_rows (tget (KP2P 1 2) (w_topics (fst (krun (init_world wk_acc) wk_reinvite)))))) as [r|] eqn:EL; [|discriminate].
+  apply alookup_in in EL. destruct (H _ _ _ _ _ _ EL) as [_ [_ G]]. cbn in E. inv E. rewrite H1 in G. discriminate G.
+Qed.
+Definition c07_me_fnd_private_statement : Prop :=
+  forall acc h u,
+    (forall v r, In (v, r) (kt_rows (tget (KMe u) (w_topics (fst (krun (init_world acc) h))))) -> v = u) /\
+    (forall c sid v, kt_cache (tget (KFnd u) (w_topics (fst (krun (init_world acc) h)))) = Some c -> In (sid, v) (kc_sess c) -> v = u).
+Theorem c07_me_private_refuted : ~ c07_me_fnd_private_statement.
+Proof.
+  intros H. destruct wk_me_row as [r E]. apply alookup_in in E.
+  destruct (H wk_acc wk_me 1%N) as [A _]. specialize (A _ _ E). discriminate A.
+Qed.
+Theorem c07_fnd_private_refuted : ~ c07_me_fnd_private_statement.
+Proof.
+  intros H. destruct wk_fnd_sess as [c [E HI]].
+  destruct (H wk_acc wk_fnd 1%N) as [_ B]. specialize (B _ _ _ E HI). discriminate B.
+Qed.
+
 Print Assumptions c07_request_writers.
 Print Assumptions c07_given_writers.
 Print Assumptions c07_want_writers.
@@ -101,6 +213,27 @@ Print Assumptions c07_resubscribe_restores_grant.
 Print Assumptions c07_sub_limit.
 Print Assumptions c07_no_join_no_attach_refuted.
 Print Assumptions c07_given_writers_refuted.
+Print Assumptions c07_route_me.
+Print Assumptions c07_route_fnd.
+Print Assumptions c07_route_p2p.
+Print Assumptions c07_p2p_name_pair.
+Print Assumptions c07_me_attach_private.
+Print Assumptions c07_me_fnd_private.
+Print Assumptions c07_sys_root_only.
+Print Assumptions c07_p2p_shape.
+Print Assumptions c07_p2p_participants_refuted.
+Print Assumptions c07_p2p_modes_refuted_unmasked.
+Print Assumptions c07_p2p_modes_refuted_reinvite.
+Print Assumptions c07_me_private_refuted.
+Print Assumptions c07_fnd_private_refuted.
 
 Example c07_ex_wf_satisfiable : inv_all w2_x /\ inv_aj w2_x.
 Proof. split; [exact w2_inv|exact I]. Qed.
+(* the hypotheses of the kinds theorems are satisfiable: accounts within JRWPA with A, a clean history *)
+Example c07_ex_kinds_hypotheses :
+  Forall (fun e => okmode (snd e)) wk_acc /\
+  Forall (op_clean (fun _ => false) sc_p2p sc_p2p) [KSub 1 1 false (OUsr 2) [] []; KSetSub 1 1 false (OUsr 2) 2 m_J].
+Proof.
+  split; [repeat constructor|]. constructor; [exact I|]. constructor; [|constructor].
+  intros k EX _ _ _. cbn in EX. inv EX. split; [intros _; right; reflexivity|discriminate].
+Qed.
